@@ -76,11 +76,26 @@ func genC06(tier string, rng *rand.Rand) []Script {
 	add := func(tag string, st []Stim) {
 		out = append(out, Script{Family: "C06", Tags: []string{tag}, Stims: renumber(st)})
 	}
+	// every combination of filter x OnFiltered x OnTimeout x buffer on one publication: a rejected message must
+	// not be delivered whatever other options the subscriber has
+	{
+		var st []Stim
+		for _, f := range []filt{filtEven, filtOdd, filtNever} {
+			for cb := 0; cb < 4; cb++ {
+				st = append(st, sub(2+cb%2, f.fk, f.mod, f.rem, 2, cb&1 != 0, cb&2 != 0))
+			}
+		}
+		for i := 0; i < 4; i++ {
+			st = append(st, pubS(0))
+		}
+		add("options-matrix", st)
+	}
 	// exhaustive, one subscriber: every Publish/TryReceive sequence of length L1
 	for _, c := range []int{0, 1, 2} {
 		for _, f := range []filt{filtNil, filtEven} {
 			for _, seq := range sequences([]Stim{pubS(0), recvS(0)}, L1) {
-				add("one-sub", append([]Stim{sub(c, f.fk, f.mod, f.rem, 2, false, false)}, seq...))
+				cb := f.fk != 0 // the filtered subscriber also has OnFiltered and OnTimeout
+				add("one-sub", append([]Stim{sub(c, f.fk, f.mod, f.rem, 2, cb, cb)}, seq...))
 			}
 		}
 	}
@@ -91,8 +106,9 @@ func genC06(tier string, rng *rand.Rand) []Script {
 	}
 	for _, g := range []cfg{{0, 1, filtNil, filtOdd}, {1, 0, filtEven, filtNil}, {2, 1, filtOdd, filtEven}, {0, 0, filtNil, filtNil}} {
 		for _, seq := range sequences([]Stim{pubS(0), recvS(0), recvS(1)}, L2) {
-			add("two-subs", append([]Stim{sub(g.c0, g.f0.fk, g.f0.mod, g.f0.rem, 2, false, false),
-				sub(g.c1, g.f1.fk, g.f1.mod, g.f1.rem, 2, false, false)}, seq...))
+			// s0 carries OnFiltered/OnTimeout next to its filter, s1 only OnTimeout
+			add("two-subs", append([]Stim{sub(g.c0, g.f0.fk, g.f0.mod, g.f0.rem, 2, true, true),
+				sub(g.c1, g.f1.fk, g.f1.mod, g.f1.rem, 2, false, true)}, seq...))
 		}
 	}
 	// structured random: 2-4 subscribers (one may join late), random buffers/filters, 10-24 stimuli
@@ -104,7 +120,7 @@ func genC06(tier string, rng *rand.Rand) []Script {
 		late := rng.Intn(2) == 0
 		for have < ns-1 || (!late && have < ns) {
 			f := randFilt(rng)
-			st = append(st, sub(rng.Intn(4), f.fk, f.mod, f.rem, 2, false, false))
+			st = append(st, sub(rng.Intn(4), f.fk, f.mod, f.rem, 2, rng.Intn(2) == 0, rng.Intn(2) == 0))
 			have++
 		}
 		for k := 0; k < n; k++ {
@@ -116,7 +132,7 @@ func genC06(tier string, rng *rand.Rand) []Script {
 			default:
 				if have < ns {
 					f := randFilt(rng)
-					st = append(st, sub(rng.Intn(4), f.fk, f.mod, f.rem, 2, false, false))
+					st = append(st, sub(rng.Intn(4), f.fk, f.mod, f.rem, 2, rng.Intn(2) == 0, rng.Intn(2) == 0))
 					have++
 				} else {
 					st = append(st, pubS(0))
@@ -148,6 +164,15 @@ func genC15(tier string, rng *rand.Rand) []Script {
 	add("two-timeouts", []Stim{sub(1, 0, 0, 0, 0, true, true), sub(1, 0, 0, 0, 2, true, true), pubS(0), pubS(0), pubS(0), advanceS})
 	// 60ms vs 160ms: after the short one expired the other one must still be pending
 	add("two-timeouts", []Stim{sub(0, 0, 0, 0, 0, true, true), sub(0, 0, 0, 0, 1, true, true), pubS(0), advanceShortS, recvS(1), pubS(0), advanceS})
+	// zero and negative timeouts: time.After fires at once, a surplus message is dropped (OnTimeout) immediately
+	for _, tm := range []int{3, 4} {
+		add("nonpositive-timeout", []Stim{sub(2, 0, 0, 0, tm, true, true), pubS(0), pubS(0), pubS(0), pubS(0), pubS(0), advanceS})
+		add("nonpositive-timeout", []Stim{sub(0, 0, 0, 0, tm, true, true), pubS(0), pubS(0), recvS(0)})
+		add("nonpositive-timeout", []Stim{sub(1, 1, 2, 0, tm, false, false), sub(1, 0, 0, 0, 2, true, true), pubS(0), pubS(0), pubS(0), pubS(0), recvS(0), pubS(0)})
+		for _, seq := range sequences([]Stim{pubS(0), recvS(0), advanceS}, L2) {
+			add("one-sub-nonpositive", append([]Stim{sub(1, 0, 0, 0, tm, true, true)}, seq...))
+		}
+	}
 	// Publish with every buffer full and nobody receiving (60s timeouts): must return at once
 	{
 		st := []Stim{sub(2, 0, 0, 0, 2, true, true), sub(0, 0, 0, 0, 2, false, false), sub(1, 1, 2, 1, 2, true, false)}
@@ -180,7 +205,7 @@ func genC15(tier string, rng *rand.Rand) []Script {
 		var st []Stim
 		for k := 0; k < ns; k++ {
 			f := randFilt(rng)
-			st = append(st, sub(rng.Intn(3), f.fk, f.mod, f.rem, rng.Intn(3), rng.Intn(3) > 0, rng.Intn(3) > 0))
+			st = append(st, sub(rng.Intn(3), f.fk, f.mod, f.rem, rng.Intn(5), rng.Intn(3) > 0, rng.Intn(3) > 0))
 		}
 		n := 6 + rng.Intn(9)
 		for k := 0; k < n; k++ {
@@ -312,11 +337,11 @@ func scopeText(prop, tier string, n int) string {
 	switch prop {
 	case "C06":
 		if tier == "thorough" {
-			return fmt.Sprintf("%d scripts: every Publish/TryReceive sequence of length 8 for one subscriber (buffer 0,1,2 x no filter/even filter), every sequence of length 6 over {Publish,TryReceive s0,TryReceive s1} for 4 two-subscriber configurations, 3000 random scripts (2-4 subscribers, buffers 0-3, six filter kinds, late subscriber); each followed by a drain", n)
+			return fmt.Sprintf("%d scripts: every Publish/TryReceive sequence of length 8 for one subscriber (buffer 0,1,2 x no filter/even filter), every sequence of length 6 over {Publish,TryReceive s0,TryReceive s1} for 4 two-subscriber configurations, 3000 random scripts (2-4 subscribers, buffers 0-3, six filter kinds, callbacks present or nil, late subscriber); each followed by a drain", n)
 		}
-		return fmt.Sprintf("%d scripts: every Publish/TryReceive sequence of length 5 for one subscriber (buffer 0,1,2 x no filter/even filter), every sequence of length 4 over {Publish,TryReceive s0,TryReceive s1} for 4 two-subscriber configurations, 120 random scripts (2-4 subscribers, buffers 0-3, six filter kinds, late subscriber); each followed by a drain", n)
+		return fmt.Sprintf("%d scripts: every Publish/TryReceive sequence of length 5 for one subscriber (buffer 0,1,2 x no filter / even filter+OnFiltered+OnTimeout), a 12-subscriber matrix of filter x OnFiltered x OnTimeout, every sequence of length 4 over {Publish,TryReceive s0,TryReceive s1} for 4 two-subscriber configurations, 120 random scripts (2-4 subscribers, buffers 0-3, six filter kinds, callbacks present or nil, late subscriber); each followed by a drain", n)
 	case "C15":
-		return fmt.Sprintf("%d scripts: the two F11 witnesses, 60ms-vs-60s and 60ms-vs-160ms timeout pairs, Publish x12 into full buffers; every sequence of length %d over {Publish,TryReceive,Advance} for one subscriber with a 60ms timeout and both callbacks (buffer 0,1); every sequence of length %d over {Publish,TryReceive s0,TryReceive s1,Advance} for 3 two-subscriber configurations (s0 60ms, s1 60s); seeded random scripts (2-4 subscribers, buffers 0-2, timeouts 60ms/160ms/60s, callbacks present or nil); each followed by Advance + drain + a settled marker", n, map[string]int{"quick": 4, "thorough": 5}[tier], map[string]int{"quick": 3, "thorough": 4}[tier])
+		return fmt.Sprintf("%d scripts: the two F11 witnesses, 60ms-vs-60s and 60ms-vs-160ms timeout pairs, zero and negative (-1s) timeouts (3 fixed scripts + every sequence of length %d over {Publish,TryReceive,Advance} each), Publish x12 into full buffers; every sequence of length %d over {Publish,TryReceive,Advance} for one subscriber with a 60ms timeout and both callbacks (buffer 0,1); every sequence of length %d over {Publish,TryReceive s0,TryReceive s1,Advance} for 3 two-subscriber configurations (s0 60ms, s1 60s); seeded random scripts (2-4 subscribers, buffers 0-2, timeouts 60ms/160ms/60s/0/-1s, callbacks present or nil); each followed by Advance + drain + a settled marker", n, map[string]int{"quick": 3, "thorough": 4}[tier], map[string]int{"quick": 4, "thorough": 5}[tier], map[string]int{"quick": 3, "thorough": 4}[tier])
 	case "C10":
 		return fmt.Sprintf("%d scripts: the F16 witness (Subscribe(0); Publish(1); Close) for Publication.Close and Subscriber.Close, a buffer-kept script, and for each of %d base scripts (1-3 subscribers, buffers 0-3, deliveries pending / buffered / timed out) a Close of each subscriber, of the publication, twice, both, and at two different positions injected at EVERY position; seeded random scripts with closes anywhere and subscribers joining after a close; each followed by a drain and a settled marker", n, map[string]int{"quick": 5, "thorough": 7}[tier])
 	}
